@@ -232,3 +232,108 @@ Print Assumptions C12_set_bad_id_direct.
 Print Assumptions C12_failed_read_recoverable.
 Print Assumptions C12_pal_read_robust.
 Print Assumptions C12_cfg_bits_translated.
+
+(* ---- tie to the source by TRANSLATION (phase 3): tools/gotrans/c12.go renders 30 functions of
+   level/palette.go - every method of PaletteContainer, of the two configurations and of the four
+   palettes, the constructors, withCap, resolveIndirect - as terms of Model/C12_syntax.v (Gen/C12gen.v,
+   regenerated on every run).  Proofs/C12_expected.v pins each of them to a recorded copy; the
+   interpretation lemmas of Proofs/C12_skel.v show that the recorded terms, run by the interpreter of
+   Model/C12_syntax.v, ARE the model's functions.  The theorems below are about the GENERATED terms. *)
+From GoMC Require Model.C12_syntax Gen.C12gen Proofs.C12_expected Proofs.C12_skel.
+Import C12_syntax.
+
+(* the palette lookup used by Set - id() of the four palettes: index or upgrade width, the growth test
+   cap-len > 0, the append, the hash map as the last-index view - as translated, is the model's pal_id *)
+Theorem C12_id_translated : forall v,
+  (forall v0, C12_skel.id_result C12gen.pal_singleValuePalette_id
+     (run no_set C12gen.pal_singleValuePalette_id (VPal (PSingle v0)) [VZ v]) = Some (pal_id (PSingle v0) v)) /\
+  (forall vals cap pb, C12_skel.id_result C12gen.pal_linearPalette_id
+     (run no_set C12gen.pal_linearPalette_id (VPal (PLinear vals cap pb)) [VZ v]) = Some (pal_id (PLinear vals cap pb) v)) /\
+  (forall vals cap pb, C12_skel.id_result C12gen.pal_hashPalette_id
+     (run no_set C12gen.pal_hashPalette_id (VPal (PHash vals cap pb)) [VZ v]) = Some (pal_id (PHash vals cap pb) v)) /\
+  C12_skel.id_result C12gen.pal_globalPalette_id
+     (run no_set C12gen.pal_globalPalette_id (VPal PGlobal) [VZ v]) = Some (pal_id PGlobal v).
+Proof.
+  intros v. rewrite C12_expected.singleValuePalette_id_skel_ok, C12_expected.linearPalette_id_skel_ok,
+    C12_expected.hashPalette_id_skel_ok, C12_expected.globalPalette_id_skel_ok.
+  split; [intros; apply C12_skel.tie_single_id|]. split; [intros; apply C12_skel.tie_linear_id|].
+  split; [intros; apply C12_skel.tie_hash_id|apply C12_skel.tie_global_id].
+Qed.
+
+(* value() of the four palettes (bounds test, panic) as translated is the model's pal_value *)
+Theorem C12_value_translated : forall i,
+  (forall v0, C12_skel.value_result (run no_set C12gen.pal_singleValuePalette_value (VPal (PSingle v0)) [VZ i])
+              = Some (pal_value (PSingle v0) i)) /\
+  (forall vals cap pb, C12_skel.value_result (run no_set C12gen.pal_linearPalette_value (VPal (PLinear vals cap pb)) [VZ i])
+              = Some (pal_value (PLinear vals cap pb) i)) /\
+  (forall vals cap pb, C12_skel.value_result (run no_set C12gen.pal_hashPalette_value (VPal (PHash vals cap pb)) [VZ i])
+              = Some (pal_value (PHash vals cap pb) i)) /\
+  C12_skel.value_result (run no_set C12gen.pal_globalPalette_value (VPal PGlobal) [VZ i]) = Some (pal_value PGlobal i).
+Proof.
+  intros i. rewrite C12_expected.singleValuePalette_value_skel_ok, C12_expected.linearPalette_value_skel_ok,
+    C12_expected.hashPalette_value_skel_ok, C12_expected.globalPalette_value_skel_ok.
+  split; [intros; apply C12_skel.tie_single_value|]. split; [intros; apply C12_skel.tie_linear_value|].
+  split; [intros; apply C12_skel.tie_hash_value|apply C12_skel.tie_global_value].
+Qed.
+
+(* the threshold switches of the two configurations (create: 0 / 1..4 -> linear of 4 bits and 1<<4
+   entries / 5..8 -> hash of 1<<bits entries / direct; biomes 0 / 1..3 -> linear of 1<<bits / direct)
+   as translated are the model's cfg_create, for every width *)
+Theorem C12_create_translated : forall g b,
+  C12_skel.create_result (run no_set C12gen.pal_statesCfg_create (VCfg (mkCfg KStates g)) [VZ b])
+    = Some (cfg_create (mkCfg KStates g) b) /\
+  C12_skel.create_result (run no_set C12gen.pal_biomesCfg_create (VCfg (mkCfg KBiomes g)) [VZ b])
+    = Some (cfg_create (mkCfg KBiomes g) b).
+Proof.
+  intros g b. rewrite C12_expected.statesCfg_create_skel_ok, C12_expected.biomesCfg_create_skel_ok.
+  split; [apply C12_skel.tie_states_create|apply C12_skel.tie_biomes_create].
+Qed.
+
+(* headline over the interpretation: the translated Get on a container satisfying the invariant returns
+   the element of the array (so, with C12_refines / C12_histories, the last value set there) *)
+Theorem C12_get_translated : forall c j, Inv c -> 0 <= j < blen (cdata c) ->
+  C12_skel.out_result (run no_set C12gen.pal_PaletteContainer_Get (VCont c) [VZ j])
+  = Some (ORet (nth (Z.to_nat j) (pabs c) 0)).
+Proof.
+  intros c j I Hj. rewrite C12_expected.PaletteContainer_Get_skel_ok, C12_skel.tie_get.
+  rewrite (get_abs c j I Hj). reflexivity.
+Qed.
+
+(* the translated WriteTo writes bits byte, palette, data array in this order: the model's image *)
+Theorem C12_writeto_translated : forall c,
+  C12_skel.interp_writeto C12gen.pal_PaletteContainer_WriteTo c = Some (fst (pc_write c)).
+Proof. intros c. rewrite C12_expected.PaletteContainer_WriteTo_skel_ok. apply C12_skel.tie_writeto. Qed.
+
+(* Set, ReadFrom (container and palettes), the palettes' WriteTo, the constructors, withCap and
+   resolveIndirect are pinned statement by statement to the recorded translation (no interpretation
+   lemma yet): a changed constant, a dropped or swapped statement breaks the obligation *)
+Theorem C12_bodies_recorded :
+  C12gen.pal_PaletteContainer_Set = C12_expected.exp_PaletteContainer_Set /\
+  C12gen.pal_PaletteContainer_ReadFrom = C12_expected.exp_PaletteContainer_ReadFrom /\
+  C12gen.pal_singleValuePalette_ReadFrom = C12_expected.exp_singleValuePalette_ReadFrom /\
+  C12gen.pal_linearPalette_ReadFrom = C12_expected.exp_linearPalette_ReadFrom /\
+  C12gen.pal_hashPalette_ReadFrom = C12_expected.exp_hashPalette_ReadFrom /\
+  C12gen.pal_linearPalette_WriteTo = C12_expected.exp_linearPalette_WriteTo /\
+  C12gen.pal_hashPalette_WriteTo = C12_expected.exp_hashPalette_WriteTo /\
+  C12gen.pal_NewStatesPaletteContainerWithData = C12_expected.exp_NewStatesPaletteContainerWithData /\
+  C12gen.pal_NewBiomesPaletteContainerWithData = C12_expected.exp_NewBiomesPaletteContainerWithData /\
+  C12gen.pal_resolveIndirect = C12_expected.exp_resolveIndirect /\
+  C12gen.pal_withCap = C12_expected.exp_withCap /\
+  C12gen.pal_statesCfg_bits = C12_expected.exp_statesCfg_bits /\
+  C12gen.pal_biomesCfg_bits = C12_expected.exp_biomesCfg_bits.
+Proof.
+  repeat split; first
+   [ apply C12_expected.PaletteContainer_Set_skel_ok | apply C12_expected.PaletteContainer_ReadFrom_skel_ok
+   | apply C12_expected.singleValuePalette_ReadFrom_skel_ok | apply C12_expected.linearPalette_ReadFrom_skel_ok
+   | apply C12_expected.hashPalette_ReadFrom_skel_ok | apply C12_expected.linearPalette_WriteTo_skel_ok
+   | apply C12_expected.hashPalette_WriteTo_skel_ok | apply C12_expected.NewStatesPaletteContainerWithData_skel_ok
+   | apply C12_expected.NewBiomesPaletteContainerWithData_skel_ok | apply C12_expected.resolveIndirect_skel_ok
+   | apply C12_expected.withCap_skel_ok | apply C12_expected.statesCfg_bits_skel_ok | apply C12_expected.biomesCfg_bits_skel_ok ].
+Qed.
+
+Print Assumptions C12_id_translated.
+Print Assumptions C12_value_translated.
+Print Assumptions C12_create_translated.
+Print Assumptions C12_get_translated.
+Print Assumptions C12_writeto_translated.
+Print Assumptions C12_bodies_recorded.
